@@ -26,6 +26,9 @@ EXC_CLASSES = {
 
 
 def make_exc(name, msg):
+    if msg is None:
+        # an exception raised without arguments (bare assert, MemoryError(), KeyError()): args == ()
+        return {"AssertionError": AssertionError, "MemoryError": MemoryError, "KeyError": KeyError}[name]()
     if name == "LinAlgError":
         import numpy as np
         return np.linalg.LinAlgError(msg)
